@@ -66,13 +66,59 @@ func scenario(c Case) *vexplore.Scenario {
 			srv := &collectServer{ctx: context.Background()}
 			var err error
 			body := func() { err = p.Series(req, srv) }
+			// Monitor (evaluated at every scheduling point): when a store's call gets cancelled by the frame-timeout
+			// timer, note what its receiver goroutine was doing. A receiver that is waiting for a free slot of the
+			// lazy ring buffer has already received its frame in time: such a store did NOT fail, the proxy must
+			// not have its frame timeout running then.
+			noted := make([]bool, len(fakes))
+			cancelledWhileWaitingForSlot := make([]bool, len(fakes))
+			waitingAtFire := map[string][]bool{} // timer thread -> per store: receiver was waiting for a buffer slot when the timer fired
+			receivers := func(e *vsync.Exec) []vsync.ThreadInfo {
+				var recv []vsync.ThreadInfo
+				for _, ti := range e.Threads() {
+					if ti.Name == "go" {
+						recv = append(recv, ti)
+					}
+				}
+				return recv
+			}
+			setup := func(e *vsync.Exec) {
+				e.OnTimerFire = func(thread string) {
+					recv := receivers(e)
+					w := make([]bool, len(fakes))
+					k := 0
+					for i, f := range fakes {
+						if f.spec.Fault == "open" {
+							continue
+						}
+						if k >= len(recv) {
+							break
+						}
+						p := recv[k].Pending
+						k++
+						w[i] = strings.HasPrefix(p, "cond-wake") || strings.HasPrefix(p, "cond-wait-enter")
+					}
+					waitingAtFire[thread] = w
+				}
+				e.Invariant = func() string {
+					for i, f := range fakes {
+						if ctx := f.lastCtx(); ctx != nil && ctx.Err() != nil && !noted[i] {
+							noted[i] = true
+							if w, ok := waitingAtFire[e.LastRun()]; ok && w[i] {
+								cancelledWhileWaitingForSlot[i] = true
+							}
+						}
+					}
+					return ""
+				}
+			}
 			check := func(e *vsync.Exec) (string, string, string) {
 				// which stores failed in THIS execution: scripted faults plus calls cancelled by the frame timeout
 				// while the stream was still being read
 				var failed, healthy []int
 				for i, f := range fakes {
 					scripted := f.spec.Fault != ""
-					if scripted || (f.cancelled.Load() && c.Timeout) {
+					if scripted || (f.cancelled.Load() && c.Timeout && !cancelledWhileWaitingForSlot[i]) {
 						failed = append(failed, i)
 					} else {
 						healthy = append(healthy, i)
@@ -100,7 +146,7 @@ func scenario(c Case) *vexplore.Scenario {
 				}
 				return "", "", outcome
 			}
-			return nil, body, check
+			return setup, body, check
 		},
 	}
 }
